@@ -56,6 +56,13 @@ CLAIMED["C05"] = {
     "technique": "deterministic simulation: seeded store histories (save/overwrite/load) on a fault-injecting simulated disk with crash points, ACK/UNKNOWN durability model and structural+semantic comparator",
 }
 
+CLAIMED["C11"] = {
+    "text": "Seeded search over sessions of save / load / dict-round-trip / text-round-trip steps on a simulated disk shared by 1-3 clients and eleven artefact kinds (Pauli operators and operator lists through rapidjson, measurement sets, expectation values with correlation/covariance frames, parity tallies, value estimates, plain lists, circuit layers, connectivity, ordering, measurement-count estimates): values are written through every handle kind their functions are annotated to accept, overwritten by longer, shorter and other-kind values, and read back - also after saves that failed or crashed at a scheduled I/O event (open/write/close errors, torn writes, crash leaving a torn prefix, short reads). Oracle: an acknowledged value loads and compares equal under a per-kind harness comparator (operators: same Pauli-string coefficient map to the 1e-8 tolerance, exact per-term parts when clearly simplified); after a failed save a load may fail or return old/new, never other data; injected errors are not swallowed; caller-owned handles stay open. The dict and print/parse channels are pure functions: exercised with the same comparators, decided by input generation only. Evidence over sampled sessions, not proof.",
+    "design_ref": "DESIGN.md §3 C11",
+    "note": "Trusted: SimFS, the per-kind comparators, linear independence of Pauli strings (coefficient map equality = matrix equality). Real: operators._io + rapidjson, Pauli __repr__/parser, Measurements.save/load_from_file, ExpectationValues/Parities/ValueEstimate/layers/connectivity/ordering/list/nmeas save+load, ensure_open.",
+    "technique": "deterministic simulation: seeded store histories over eleven artefact kinds on a fault-injecting simulated disk with crash points and an ACK/UNKNOWN durability model",
+}
+
 PENDING = {pid: "applicable (DESIGN.md §3) but its check is not built yet at this commit; not claimed until it is" for pid in
            ["C01", "C04", "C05", "C11", "C13", "C14", "C15", "C17", "C20"] if pid not in CLAIMED}
 
